@@ -266,3 +266,51 @@ pub fn spec_stb(queue_nonempty: bool, ques: bool, oper: bool, mav: bool, esr: u8
     }
     stb
 }
+
+// ------------------------------------------------------------------------------------------
+// C07: nearest-integer conversion of a decimal literal's (double / single) value
+// ------------------------------------------------------------------------------------------
+const TWO53: f64 = 9007199254740992.0;
+/// For a non-NaN `v` and an integer type [min, max]: (must_be_ok, must_be_range_error).
+/// Both false only at an exact tie on a type bound (v == min-0.5 or v == max+0.5), where the
+/// statement allows either neighbour.
+pub fn spec_round_range(v: f64, min: i128, max: i128) -> (bool, bool) {
+    if v.is_infinite() {
+        return (false, true);
+    }
+    let big = v >= TWO53 || v <= -TWO53;
+    if big {
+        // integer-valued: no ties; saturating cast is exact below 2^127 and saturates above
+        let vi = v as i128;
+        let inr = vi >= min && vi <= max;
+        return (inr, !inr);
+    }
+    let lim = TWO53 as i128;
+    let lo_ok = min < -lim || v > (min as f64) - 0.5;
+    let hi_ok = max > lim || v < (max as f64) + 0.5;
+    let lo_out = !(min < -lim) && v < (min as f64) - 0.5;
+    let hi_out = !(max > lim) && v > (max as f64) + 0.5;
+    (lo_ok && hi_ok, lo_out || hi_out)
+}
+/// `i` is a nearest integer of `v` (ties either way), judged at the resolution of a double,
+/// or of a single when `single`.
+pub fn spec_near(i: i128, v: f64, single: bool) -> bool {
+    if v.is_infinite() || v != v {
+        return false;
+    }
+    let big = v >= TWO53 || v <= -TWO53;
+    if big {
+        return i == v as i128;
+    }
+    let lim = TWO53 as i128;
+    if i > lim || i < -lim {
+        return false;
+    }
+    if single {
+        let d = (i as f32) - (v as f32);
+        d >= -0.5 && d <= 0.5
+    } else {
+        let d = (i as f64) - v;
+        d >= -0.5 && d <= 0.5
+    }
+}
